@@ -124,6 +124,7 @@ def run(ctx, nscen=None, nbus=None):
             res.count('onhandle=%s' % OH[d['onhandle']])
             res.count('flags=ackErr:%d,ackUnknown:%d' % (d['ack_errors'], d['ack_unknown']))
             res.count('handlers_in_router_handler=%d' % len(d['handlers']))
+            res.count('router_handlers_on_processor=%d' % d['router_handlers'])
             res.count('in_flight=%s' % (d['flight'] if d['flight'] < 8 else '8+'))
             res.count('final=%s' % ST[d['final']])
             ncalls = sum(1 for e in d['trace'] if e[0] == 'handle')
